@@ -218,13 +218,13 @@ macro_rules! ctr_core_clone {
             kani::assume(pos <= <$ct>::MAX - 8);
             let c = UfE::<$bs, $par>::with_key(kani::any());
             let mut o = ctr::CtrCore::<_, ctr::flavors::$flavor>::inner_iv_init(c.clone(), blk::<$bs>(&iv));
-            o.set_block_pos(pos);
+            o.set_block_pos(pos as _);
             let mut k = o.clone();
-            assert!(k.get_block_pos() == pos && k.remaining_blocks() == o.remaining_blocks(), "clone lost the position");
+            assert!(k.get_block_pos() as u128 == pos as u128 && k.remaining_blocks() == o.remaining_blocks(), "clone lost the position");
             let d: [u8; 2 * B] = kani::any();
             let (mut x, mut y) = (d, d);
             o.apply_keystream_blocks(blocks_mut::<$bs>(&mut x));
-            assert!(k.get_block_pos() == pos, "using the original moved the clone");
+            assert!(k.get_block_pos() as u128 == pos as u128, "using the original moved the clone");
             k.apply_keystream_blocks(blocks_mut::<$bs>(&mut y));
             let mut j = 0;
             while j < 2 * B {
